@@ -38,6 +38,7 @@ type Runner struct {
 	Pal        *palette.Palette
 	Cache      int
 	Sync       bool // commit with WriteSync
+	Persist    bool // every storage call from the failing one on fails
 	Flush      int
 	Probe      bool // run the read probes after every step
 	SnapImages bool // copy the store after every physical write (crash images)
@@ -102,6 +103,7 @@ func (r *Runner) Run(failAt int, stopAfterOps int) {
 	r.Mem = dbm.NewMemDB()
 	r.FDB = faultdb.New(r.Mem)
 	r.FDB.FailAt = failAt
+	r.FDB.Persist = r.Persist
 	r.FDB.Snap = r.SnapImages
 	r.Ops = nil
 	r.exporters = map[int64]*iavl.Exporter{}
